@@ -1,5 +1,6 @@
-\* exhaustive + emission (quick): averaged cores of height 5, minimum sizes 2 and 3 half units
-CONSTANTS HC = 5  Mins = {2, 3}  Families = {"avg"}
+\* exhaustive + emission (quick): a regular plane below or above the fuel, control bottom and top anywhere around it; height 7,
+\* minimum size 3 half units (points are even: a boundary one whole unit from a plane is inside the window; the fuel must be two units high)
+CONSTANTS HC = 7  Mins = {3}  Families = {"planes"}
 INIT Init
 NEXT Next
 INVARIANT AtMostTwoRows
